@@ -71,6 +71,17 @@ def incidence (h : Net) (order : Option Nat) : Inc :=
   if es.isEmpty || h.nodes.isEmpty then ⟨[], [], []⟩
   else ⟨h.nodes.map (fun n => es.map (ind n)), h.nodes, es.map (·.1)⟩
 
+/-- the entry the loop writes at (node, edge) when a `weight` callback is passed: `data.append(weight(node, edge, H))`
+    (the matrix has `dtype=int`; integer-valued callbacks only) -/
+def indW (w : PyId → PyId → Int) (n : PyId) (p : PyId × List PyId) : Int := if n ∈ p.2 then w n p.1 else 0
+
+/-- `incidence_matrix(H, order, index=True, weight=w)`: `w node edge` is the callback's value (first argument the
+    node, second the edge ID); the default callback is the constant 1, for which this is `incidence` -/
+def incidenceW (h : Net) (order : Option Nat) (w : PyId → PyId → Int) : Inc :=
+  let es := edgesOf h order
+  if es.isEmpty || h.nodes.isEmpty then ⟨[], [], []⟩
+  else ⟨h.nodes.map (fun n => es.map (indW w n)), h.nodes, es.map (·.1)⟩
+
 /-! ### adjacency, degree, intersection profile, clique motif -/
 
 /-- `adjacency_matrix(H, order, s, weighted, index=True)`.  When the incidence matrix is (0, 0) the code
